@@ -17,8 +17,9 @@ ASSUMPTIONS = ["a mailbox whose id the client never learned (close before `claim
                "a nameplate the server allocated whose `allocated` reply was lost is exempt",
                "bounded progress: 300 virtual seconds of stable connectivity"]
 FLOORS = {"quick": {"closed_sides": 1500, "close_mid_protocol": 500, "verdict_Lonely": 50, "verdict_happy": 50,
-                    "verdict_WrongPassword": 10, "verdict_ServerError": 5, "verdict_WelcomeError": 5},
-          "thorough": {"closed_sides": 30000, "close_mid_protocol": 10000}}
+                    "verdict_WrongPassword": 10, "verdict_ServerError": 5, "verdict_WelcomeError": 5,
+                    "gets_after_closed": 3000, "unread_backlog_at_closed": 30},
+          "thorough": {"closed_sides": 30000, "close_mid_protocol": 10000, "gets_after_closed": 100000, "unread_backlog_at_closed": 1000}}
 MOOD = {"happy": "happy", "LonelyError": "lonely", "WrongPasswordError": "scary",
         "ServerError": "errory", "WelcomeError": "unwelcome"}
 
@@ -49,6 +50,12 @@ def cases(tier, seed, prep=None):
     n = 150 if q else 6000
     for i in range(n):
         out.append({"kind": "closerandom", "seed": seed * 1000003 + 900000 + i, "mode": modes[i % len(modes)]})
+    # the closing side has not read everything it received (Deferred API): nothing of that backlog may be
+    # handed out once the closed notification has fired
+    for i in range(60 if q else 2000):
+        who = "ab"[i % 2]
+        out.append({"kind": "closerandom", "seed": seed * 1000003 + 950000 + i, "mode": "tcp", "min_msgs": 2,
+                    "cfg_over": {"api_" + who: "deferred", "get_" + who: ["never", "lazy"][i // 2 % 2], "get_limit": i % 3}})
     for i in range(40 if q else 1200):
         out.append({"kind": "mismatch", "seed": seed * 1000003 + 910000 + i, "close_at": (i * 7) % 160, "who": "AB"[i % 2]})
     for i in range(30 if q else 800):
@@ -151,10 +158,21 @@ def run_case(spec):
     end = sch.drain(300.0, 12000, until=lambda: all(a.closed for a in apps))
     # one more batch so late events (if any) show up
     sch.drain(5.0, 300)
+    # ... and whatever the application asks for after the closed notification must fail, not deliver
+    late_gets = 0
+    backlog = 0
+    for app in apps:
+        if app.api == "deferred" and app.closed:
+            backlog += len(getattr(getattr(app.w, "_received_observer", None), "_results", ()))
+            for what in ("message", "message", "message", "versions", "verifier", "unverified_key", "code", "welcome"):
+                app.extra_get(what)
+                late_gets += 1
+    sch.drain(10.0, 600, until=lambda: all(g[2] != "pending" for a in apps for g in a.get_results))
     world.finish()
 
     viol = []
-    counters = {"closed_sides": 0, "close_mid_protocol": 0, "drops": drv.drops_done}
+    counters = {"closed_sides": 0, "close_mid_protocol": 0, "drops": drv.drops_done, "gets_after_closed": late_gets,
+                "unread_backlog_at_closed": backlog}
     sets = {"states_at_close": [], "verdicts": []}
     claims = world.nameplate_claims()
     msides = world.mailbox_sides()
@@ -222,6 +240,17 @@ def run_case(spec):
         after = [k for k in kinds[kinds.index("closed"):] if k != "closed" and not k.endswith("-err")]
         if after:
             viol.append({"key": "C08/event-after-closed/" + after[0], "msg": "%s: %s" % (app.name, kinds), "witness": wit()})
+        cstep = [st for (st, k, v) in app.ev if k == "closed"]
+        for g in app.get_results:
+            if cstep and g[0] > cstep[0] and g[2] == "ok":
+                viol.append({"key": "C08/delivered-after-closed/get_" + g[1],
+                             "msg": "%s: get_%s() issued at step %d, after the closed notification (step %d), handed out %r" % (
+                                 app.name, g[1], g[0], cstep[0], g[3] if len(g) > 3 else None), "witness": wit()})
+                break
+            if cstep and g[0] > cstep[0] and g[2] == "pending":
+                viol.append({"key": "C08/get-hangs-after-closed/get_" + g[1], "msg": "%s: get_%s() issued after the closed notification neither fired nor failed" % (app.name, g[1]),
+                             "witness": wit()})
+                break
         if internal:
             continue      # the Terminator never runs after Boss.error: leftovers are consequences of the root cause above
         # server resources
